@@ -272,17 +272,18 @@ def gen_event(rng, nsub=None):
             "subs": [gen_subdet(rng) for _ in range(nsub)]}
 
 
-def gen_block(rng, nev=None):
+def gen_block(rng, nev=None, small=False):
     if nev is None:
         nev = rng.choice([1, 1, 1, 2, 3])
-    return {"w1": rword(rng), "w2": rword(rng), "events": [gen_event(rng) for _ in range(nev)]}
+    return {"w1": rword(rng), "w2": rword(rng),
+            "events": [gen_event(rng, nsub=rng.choice([0, 1, 2]) if small else None) for _ in range(nev)]}
 
 
-def gen_file(rng, nblocks=None, name=None, tag=None):
+def gen_file(rng, nblocks=None, name=None, tag=None, small=False):
     if nblocks is None:
         nblocks = rng.choice([1, 2, 3, 4, 5, 7])
     rb = lambda n: [rng.randrange(33, 127) for _ in range(n)]
-    blocks = [gen_block(rng) for _ in range(nblocks)]
+    blocks = [gen_block(rng, small=small) for _ in range(nblocks)]
     return {"hdr1": rword(rng), "version": rword(rng), "number": rword(rng), "date": rword(rng), "time": rword(rng),
             "hdr6": rword(rng), "hdr7": rword(rng),
             "name": rb(rng.choice([0, 1, 3, 4, 5, 7, 8, 13, 65])) if name is None else name, "name_pad": rng.choice([32, 0, 10]),
@@ -673,6 +674,11 @@ def coq_answer(m):
     if m[0] == "fuel":
         return "OutOfFuel"
     raise ValueError(m)
+
+
+def coq_sel_list(mask):
+    """effective selection (empty = the default four) as a Gallina list of det"""
+    return "[" + "; ".join(COQ_DET[d] for d in mask_dets(mask & 63)) + "]"
 
 
 def coq_names(mask):
